@@ -42,8 +42,9 @@ SPEC = {
         "cross-checked against facts that do not come from DebugControl (registered statement locations, static call "
         "level of the enclosing POU, initial state at the first stop, undebugged final state) and against StepIn-only "
         "runs per thread",
-        "adapter layer (trust-debug/src/adapter/stop.rs, run_control.rs): model only, read from the source; the crate "
-        "exposes it only through DAP stdio, so it is not executed by this check",
+        "adapter layer (trust-debug/src/adapter/stop.rs, run_control.rs): model read from the source (the crate "
+        "exposes it only through DAP stdio); tied by a source-pattern check and by replaying the listed finding "
+        "against the real trust-debug binary over stdio (a race, retried)",
     ],
     "assumptions": [
         "set_current_thread is called by the cycle thread only (as in runtime/cycle.rs)",
@@ -81,27 +82,74 @@ MANIFEST = {
                   "with the right depth, and that the real debugger leaves the real program state alone (final state "
                   "and state at every stop compared with the undebugged run). Not covered: debugger writes/forces, "
                   "watch/condition expressions with side effects, reload, the remote/attach path. Second layer (DAP "
-                  "adapter stop filter) is modelled from the source only: c17_adapter_counterexample refutes 'every "
-                  "runtime stop is emitted or followed by a resume' (a breakpoint stop whose generation went stale is "
-                  "dropped while the runtime stays parked); not replayed against the binary.",
+                  "adapter stop filter, modelled from the source): c17_adapter_counterexample refutes 'every runtime "
+                  "stop is emitted or followed by a resume' (a breakpoint stop whose generation went stale is dropped "
+                  "while the runtime stays parked) - confirmed on the real trust-debug binary over DAP stdio and listed "
+                  "in known_findings.json; c17_adapter_told_partial proves the claim for every interleaving under the "
+                  "decidable guard that excludes exactly that window. The adapter model is not differentially tested "
+                  "beyond that replay.",
 }
 
 
+FINDING_ID = "C17-adapter-stale-generation"
+
+
+def _dap_binary(tier):
+    """Path of the real trust-debug binary (built from /repo's working tree into .build/dap), or None.
+    Thorough tier: always (re)built.  Quick tier: only refreshed when it already exists, within 90 s,
+    so that a cold checkout keeps the quick tier short."""
+    import vlib
+    target = os.path.join(vlib.BUILD, "dap")
+    binary = os.path.join(target, "debug", "trust-debug")
+    if tier != "thorough" and not os.path.exists(binary):
+        return None, "trust-debug not built yet (the thorough tier builds it)"
+    cmd = ["cargo", "build", "--offline", "--quiet", "--manifest-path", "/repo/Cargo.toml", "-p", "trust-debug",
+           "--target-dir", target]
+    try:
+        rc, log = vlib.sh(cmd, timeout=(1800 if tier == "thorough" else 90))
+    except Exception as e:  # timeout
+        return None, f"trust-debug build did not finish: {e}"
+    if rc != 0:
+        return None, "trust-debug does not build: " + log[-300:]
+    return binary, ""
+
+
 def extra(ctx):
-    """Coverage figures and a source-level tie for the adapter model."""
+    """Coverage figures, the source-level tie of the adapter model, and the replay of the listed
+    adapter-layer finding against the real trust-debug binary."""
+    import vlib
+    from checks import c17_dap
     cases = ctx["cases"]
     hangs = sum(1 for c in cases for (_op, impl) in c.ops if impl.startswith("hang"))
     mon = sum(1 for c in cases if "kind mon" in c.lines)
     rt = sum(1 for c in cases if "kind rt" in c.lines)
     cov = {"layer1_cases": mon, "layer2_cases": rt, "watchdog_expiries": hangs}
-    out = {"coverage": cov}
+    out = {"coverage": cov, "known": []}
     # The adapter model is read from the source: say so if the source no longer looks like the model.
     stop_rs = "/repo/crates/trust-debug/src/adapter/stop.rs"
-    frags = [r"pause_expected\.swap\(false", r"if current != Some\(generation\)", r"DebugStopReason::Breakpoint \| DebugStopReason::Step"]
+    frags = [r"pause_expected\.swap\(false", r"if current != Some\(generation\)",
+             r"DebugStopReason::Breakpoint \| DebugStopReason::Step"]
     try:
         text = open(stop_rs, encoding="utf-8").read()
         missing = [f for f in frags if not re.search(f, text)]
         cov["adapter_filter_source_matches_model"] = not missing
     except OSError:
         cov["adapter_filter_source_matches_model"] = False
+    # Known finding: replay the witness through DAP stdio (a real race: retried, never a failure).
+    listed = [f for f in vlib.known_findings("C17") if f.get("id") == FINDING_ID]
+    if listed:
+        binary, why = _dap_binary(ctx["tier"])
+        if binary is None:
+            cov["adapter_finding_replay"] = "skipped: " + why
+        else:
+            try:
+                res = c17_dap.replay(binary, vlib.WORK, attempts=(400 if ctx["tier"] == "thorough" else 80),
+                                     budget_s=(240 if ctx["tier"] == "thorough" else 45))
+            except Exception as e:
+                res = {"reproduced": False, "attempts": 0, "detail": f"replay crashed: {e}"}
+            cov["adapter_finding_replay"] = res
+            if res.get("reproduced"):
+                out["known"].append(
+                    f"{listed[0]['what']} [{listed[0]['match']}; reproduced over DAP stdio against the real "
+                    f"trust-debug binary in {res['attempts']} attempt(s): {res['detail']}]")
     return out
